@@ -444,7 +444,28 @@ var extGens = []extGen{
 		}
 		return der.Seq(kids...)
 	}},
-	{"sctList", oidExtSCT, func(g *gen) *der.Node { return der.Octets(g.sctList(g.n(4))) }},
+	{"sctList", oidExtSCT, func(g *gen) *der.Node {
+		list := g.sctList(g.n(4))
+		if g.chance(25) { // malformed framing (strict mode rejects these, permissive mode skips the extension)
+			switch g.n(7) {
+			case 0:
+				list = nil
+			case 1:
+				list = list[:1]
+			case 2:
+				list = append(list, 0)
+			case 3:
+				list = append(list, 0, 200, 1, 2, 3) // SCT length beyond the data
+			case 4:
+				list = append([]byte{0xff, 0xff}, list[2:]...) // list length field wrong
+			case 5:
+				list = append(list, 0, 0) // zero-length SCT
+			default:
+				list = list[:len(list)/2]
+			}
+		}
+		return der.Octets(list)
+	}},
 	{"ctPoison", oidExtPoison, func(g *gen) *der.Node { return der.Null() }},
 	{"torServiceDescriptor", []int{2, 23, 140, 1, 31}, func(g *gen) *der.Node {
 		var kids []*der.Node
